@@ -1121,34 +1121,139 @@ def rule_py_optional_identity(out):
         out.undecided(rid, "anchor/Optional parameters", "-", "no test of an Optional[...] parameter found in the Python runtimes")
 
 
+def rule_py_fraction_padded(out):
+    rid = "PT1"
+    out.rule(rid, "yardl_types.py: a sub-second remainder (second result of divmod(x, 10**k) / x % 10**k, k >= 3) that is rendered into text is zero-padded to k digits "
+                  "(format spec 0k, rjust(k, '0') or zfill(k)) before anything is stripped: 5 ns after the second is '.000000005', not '.5'", 1)
+    tree, rel = parse_py(out, "yardl_types.py")
+    n = 0
+
+    def pow10(node):
+        try:
+            v = ast.literal_eval(node)
+        except Exception:
+            return None
+        if isinstance(v, int) and v >= 1000:
+            k = len(str(v)) - 1
+            return k if v == 10 ** k else None
+        return None
+
+    for fn in ast.walk(tree):
+        if not isinstance(fn, (ast.FunctionDef, ast.AsyncFunctionDef)):
+            continue
+        frac = {}  # name -> digits
+        for node in ast.walk(fn):
+            if isinstance(node, ast.Assign) and len(node.targets) == 1:
+                t, v = node.targets[0], node.value
+                if isinstance(t, ast.Tuple) and len(t.elts) == 2 and isinstance(t.elts[1], ast.Name) and isinstance(v, ast.Call) \
+                        and isinstance(v.func, ast.Name) and v.func.id == "divmod" and len(v.args) == 2 and pow10(v.args[1]):
+                    frac[t.elts[1].id] = pow10(v.args[1])
+                if isinstance(t, ast.Name) and isinstance(v, ast.BinOp) and isinstance(v.op, ast.Mod) and pow10(v.right):
+                    frac[t.id] = pow10(v.right)
+        if not frac:
+            continue
+        parents = {}
+        for node in ast.walk(fn):
+            for ch in ast.iter_child_nodes(node):
+                parents[ch] = node
+        for node in ast.walk(fn):
+            if not (isinstance(node, ast.Name) and node.id in frac and isinstance(node.ctx, ast.Load)):
+                continue
+            k = frac[node.id]
+            par = parents.get(node)
+            rendered, padded = False, False
+            if isinstance(par, ast.FormattedValue):
+                rendered = True
+                spec = ast.unparse(par.format_spec) if par.format_spec is not None else ""
+                padded = ("0%d" % k) in spec
+            elif isinstance(par, ast.Call) and isinstance(par.func, ast.Name) and par.func.id == "str" and par.args and par.args[0] is node:
+                rendered = True
+                # str(n).rjust(k, '0') / .zfill(k) directly on the result
+                up = parents.get(par)
+                if isinstance(up, ast.Attribute) and up.attr in ("rjust", "zfill"):
+                    call = parents.get(up)
+                    if isinstance(call, ast.Call) and call.args:
+                        try:
+                            w = ast.literal_eval(call.args[0])
+                        except Exception:
+                            w = None
+                        fill_ok = up.attr == "zfill" or (len(call.args) > 1 and isinstance(call.args[1], ast.Constant) and call.args[1].value == "0")
+                        padded = w == k and fill_ok
+            if not rendered:
+                continue
+            n += 1
+            out.check(padded, rid, "%s/%s rendered#%d" % (fn.name, node.id, n), pos(rel, node), "padded to %d digits" % k,
+                      "`%s` is the remainder of a division by 10**%d and is written into the text without being padded to %d digits: a fraction with leading zeros "
+                      "(5 ns, 50 ms) is printed as a larger one" % (node.id, k, k))
+    if n == 0:
+        out.undecided(rid, "anchor/fraction", rel, "no rendered sub-second remainder found")
+
+
+def _outcomes(stmts):
+    """how a statement list can end: subset of {'raise', 'return', 'fall', 'jump'}"""
+    out = set()
+    for st in stmts:
+        if isinstance(st, ast.Raise):
+            return out | {"raise"}
+        if isinstance(st, ast.Return):
+            return out | {"return"}
+        if isinstance(st, (ast.Break, ast.Continue)):
+            return out | {"jump"}
+        if isinstance(st, ast.If):
+            a, b = _outcomes(st.body), _outcomes(st.orelse) if st.orelse else {"fall"}
+            out |= (a | b) - {"fall"}
+            if "fall" not in a and "fall" not in b:
+                return out
+        elif isinstance(st, (ast.With, ast.AsyncWith)):
+            a = _outcomes(st.body)
+            out |= a - {"fall"}
+            if "fall" not in a:
+                return out
+        elif isinstance(st, ast.Try):
+            a = _outcomes(st.body)
+            for h in st.handlers:
+                a |= _outcomes(h.body)
+            out |= a - {"fall"}
+            if "fall" not in a:
+                return out
+        elif isinstance(st, (ast.For, ast.While, ast.AsyncFor)):
+            out |= _outcomes(st.body) & {"raise", "return"}
+    return out | {"fall"}
+
+
+def _always_raises(stmts):
+    """every path through the statement list ends in `raise`"""
+    return _outcomes(stmts) == {"raise"}
+
+
 def rule_py_no_swallowed_eof(out):
     rid = "PE3"
-    out.rule(rid, "_binary.py: no `except` handler that can catch EOFError (EOFError, Exception, BaseException, bare) ends without raising: a truncated stream "
-                  "is never turned into a normal result", 1)
-    tree, rel = parse_py(out, "_binary.py")
+    out.rule(rid, "_binary.py, _ndjson.py: an `except` handler that can catch the error of a truncated or undecodable input (EOFError, json.JSONDecodeError, ValueError, "
+                  "Exception, BaseException, bare) raises on every path through it: a cut-off stream is never turned into a normal result or into 'end of stream'", 1)
     nfn = 0
-    for node in ast.walk(tree):
-        if not isinstance(node, (ast.FunctionDef, ast.AsyncFunctionDef)):
-            continue
-        nfn += 1
-        for h in [x for x in ast.walk(node) if isinstance(x, ast.ExceptHandler)]:
-            names = []
-            if h.type is None:
-                names = ["<bare>"]
-            elif isinstance(h.type, ast.Tuple):
-                names = [ast.unparse(e) for e in h.type.elts]
-            else:
-                names = [ast.unparse(h.type)]
-            catches = any(n in ("<bare>", "EOFError", "Exception", "BaseException") for n in names)
-            if not catches:
+    for fname in ("_binary.py", "_ndjson.py"):
+        tree, rel = parse_py(out, fname)
+        for node in ast.walk(tree):
+            if not isinstance(node, (ast.FunctionDef, ast.AsyncFunctionDef)):
                 continue
-            raises = any(isinstance(x, ast.Raise) for st in h.body for x in ast.walk(st))
-            out.check(raises, rid, "%s/except %s" % (node.name, ",".join(names)), pos(rel, h), "the handler raises",
-                      "%s catches %s and continues: reaching the end of the input inside it is reported as a normal result instead of EOFError" % (node.name, ",".join(names)))
-    if nfn >= 40:
-        out.ok(rid, "anchor/functions scanned", rel, "%d functions of the Python binary runtime scanned" % nfn)
+            nfn += 1
+            for h in [x for x in ast.walk(node) if isinstance(x, ast.ExceptHandler)]:
+                names = []
+                if h.type is None:
+                    names = ["<bare>"]
+                elif isinstance(h.type, ast.Tuple):
+                    names = [ast.unparse(e) for e in h.type.elts]
+                else:
+                    names = [ast.unparse(h.type)]
+                catches = any(n.split(".")[-1] in ("<bare>", "EOFError", "Exception", "BaseException", "JSONDecodeError", "ValueError") for n in names)
+                if not catches:
+                    continue
+                out.check(_always_raises(h.body), rid, "%s/%s/except %s" % (fname, node.name, ",".join(names)), pos(rel, h), "the handler raises on every path",
+                          "%s catches %s and can continue normally: reaching the end of the input (or a line cut off in the middle) inside it is reported as a normal result instead of an error" % (node.name, ",".join(names)))
+    if nfn >= 60:
+        out.ok(rid, "anchor/functions scanned", "tooling/internal/python/static_files", "%d functions of the Python binary and NDJSON runtimes scanned" % nfn)
     else:
-        out.undecided(rid, "anchor/functions scanned", rel, "only %d functions found" % nfn)
+        out.undecided(rid, "anchor/functions scanned", "tooling/internal/python/static_files", "only %d functions found" % nfn)
 
 
 # ----------------------------------------------------------------------------------
@@ -1649,14 +1754,14 @@ def rule_py_refill_scope(out):
 
 RULES = {
     "C07": [rule_py_mixins_have_no_public_methods],
-    "C02": [rule_json_kinds, rule_ndjson_sentinel, rule_union_dispatch, rule_py_optional_identity],
-    "C03": [rule_link, rule_py_wire_table, rule_py_capacity, rule_py_no_alias, rule_py_stream_blocks, rule_py_optional_identity],
+    "C02": [rule_json_kinds, rule_ndjson_sentinel, rule_union_dispatch, rule_py_optional_identity, rule_py_fraction_padded],
+    "C03": [rule_link, rule_py_wire_table, rule_py_capacity, rule_py_no_alias, rule_py_stream_blocks, rule_py_optional_identity, rule_ndjson_sentinel, rule_py_fraction_padded],
     "C08": [rule_link],
     "C15": [rule_py_headers, rule_ndjson_key_order],
     "C16": [rule_py_eof, rule_py_refill_scope, rule_py_no_swallowed_eof],
     "C17": [rule_py_stream_blocks, rule_py_no_alias],
     "C04": [rule_py_headers, rule_py_write_order, rule_ndjson_key_order],
-    "C01": [rule_py_wire_table, rule_py_stream_blocks, rule_py_write_order],
+    "C01": [rule_py_wire_table, rule_py_stream_blocks, rule_py_write_order, rule_py_no_alias],
 }
 
 
